@@ -418,12 +418,27 @@ async def build_server_teardown(loop, backend, variant: str) -> Scen:
     if variant.endswith("slow-close"):
         m.aclose_script = [("sleep", 1.0)]
     done = asyncio.Event()
+    with_sender = variant.endswith("+sender")
+    if with_sender:
+        m.send_block = asyncio.Event()  # never set: the peer has stopped reading for good
+
+    async def push(client):
+        # a task of the application that pushes a notification to this client: it is suspended in the transport when the
+        # connection's own task ends
+        try:
+            await client.send_packet("notification")
+        except BaseException:  # noqa: BLE001
+            pass
 
     async def handler(client):
         try:
             if variant.startswith("raise-before-yield"):
                 raise ValueError("boom")
             req = yield None
+            if with_sender:
+                sc.background.append(asyncio.ensure_future(push(client)))
+                for _ in range(3):
+                    await asyncio.sleep(0)
             if variant.startswith("raise-after-request"):
                 raise KeyError("boom")
             if variant.startswith("close-client"):
@@ -527,7 +542,7 @@ def _register() -> None:
     PATHS["client-connecting"] = (build_client_connecting, simple)
     PATHS["server-client"] = (lambda loop, b, v: build_server_client(loop, b, v, False), simple)
     PATHS["server-client-behind-sender"] = (lambda loop, b, v: build_server_client(loop, b, v, True), simple)
-    PATHS["server-teardown"] = (build_server_teardown, ["raise-before-yield", "raise-after-request", "close-client", "sleep", "eof", "raise-after-request-slow-close", "close-client-slow-close", "eof-slow-close"])
+    PATHS["server-teardown"] = (build_server_teardown, ["raise-before-yield", "raise-after-request", "close-client", "sleep", "eof", "raise-after-request-slow-close", "close-client-slow-close", "eof-slow-close", "raise-after-request+sender", "sleep+sender", "eof+sender"])
     PATHS["socket-adapter"] = (build_socket_adapter, ["idle", "pending-write"])
 
 
